@@ -1,0 +1,13 @@
+//go:build verif && !cgo
+
+// Stand-ins for the two names of bootstrap.go (a cgo file whose C part needs
+// <sys/capability.h>) so that the package type-checks for the verifier with
+// CGO_ENABLED=0. Nothing under contract refers to them.
+
+package main
+
+import "errors"
+
+var ErrNoNamespace = errors.New("cannot update mount namespace that was not created yet")
+
+func BootstrapError() error { return nil }
